@@ -101,9 +101,17 @@ def install(ctx):
     def write_post(self, info, result):
         ctx.event('FitInfoFile.write:post')
         pos = None
-        if COUNT['active'] and COUNT['bytes'] > 0:
+        if COUNT['active'] and COUNT.get('handle') is not None:
+            # the size of the output file once everything handed over so far has been flushed (the file object is the harness's
+            # own: it was created by the open() shim), whichever way the writer put the bytes there (write(), ndarray.tofile, ...)
+            try:
+                COUNT['handle'].real.flush()
+                pos = int(os.fstat(COUNT['handle'].real.fileno()).st_size)
+            except Exception:
+                pos = None
+        if pos is None and COUNT['active'] and COUNT['bytes'] > 0:
             pos = int(COUNT['bytes'])          # bytes handed to the output file so far (public boundary: the module's open())
-        else:
+        elif pos is None:
             try:
                 pos = int(self._handle.tell())   # fallback: the writer's own handle (private; may not exist after a refactor)
             except Exception:
@@ -114,7 +122,7 @@ def install(ctx):
     probe.attach(FitInfoFile, 'write', ensure=write_post)
 
 
-COUNT = {'active': False, 'bytes': 0, 'path': None}
+COUNT = {'active': False, 'bytes': 0, 'path': None, 'handle': None}
 
 
 class _CountingHandle(object):
@@ -148,7 +156,8 @@ def observed_record_ends(fn, *a, **k):
         if ('w' in mode or 'a' in mode or '+' in mode) and str(p).endswith('fit.out'):
             COUNT['bytes'] = 0
             COUNT['marks'] = []
-            return _CountingHandle(f)
+            COUNT['handle'] = _CountingHandle(f)
+            return COUNT['handle']
         return f
 
     _install_open(counting_open)
@@ -157,6 +166,7 @@ def observed_record_ends(fn, *a, **k):
     finally:
         _remove_open()
         COUNT['active'] = False
+        COUNT['handle'] = None
     ends = list(WRITE_ENDS)
     del WRITE_ENDS[:]
     return res, ends
